@@ -560,8 +560,32 @@ def cases(rng, tier):
     return out
 
 
+def _shrink_big(case, keys):
+    """size-threshold cases: no one-slice-at-a-time deletion (65k evaluations of a 65k-pixel case); cut the longest axis to the
+    powers of two the stream is about, then halve"""
+    shape = list(case['shape'])
+    ax = max(range(len(shape)), key=lambda i: shape[i])
+    rest = int(np.prod(shape)) // shape[ax]
+    for m in (65536 // rest, 32768 // rest, 256, shape[ax] // 2):
+        if 1 <= m < shape[ax]:
+            new = list(shape); new[ax] = m
+            c = dict(case, shape=new)
+            for k in keys:
+                A = np.array(case[k], dtype=object).reshape(shape)
+                c[k] = [int(x) for x in np.take(A, range(m), axis=ax).ravel().tolist()]
+            if int(np.prod(new)) < 4096:
+                c.pop('size', None)      # small enough for the ordinary shrinker
+            yield c
+
+
 def shrink(case):
     if 'block' in case:
+        return
+    if case.get('size') == 'threshold':
+        for k in ('alias', 'outbuf'):
+            if case.get(k):
+                yield {kk: v for kk, v in case.items() if kk != k}
+        yield from _shrink_big(case, ('f', 'g'))
         return
     shape = case['shape']
     F = np.array(case['f'], dtype=object).reshape(shape)
